@@ -92,6 +92,11 @@ theorem closing_connection_gets_nothing (s : ServerLink.State) (hr : ServerLink.
     (hl : s.links[c]? = some l) (hc : l.closing = true) : l.cmds = [] :=
   Proofs.ServerLink.closing_connection_gets_nothing s hr c l hl hc
 
+/-- A further connection of a known peer leaves the whole server behaviour as it is. -/
+theorem extra_connection_keeps_server_state (s : ServerLink.State) (p c : Nat) (hp : p ∈ s.sv.wl) :
+    (ServerLink.step s (.connect p c)).sv = s.sv :=
+  Proofs.ServerLink.extra_connection_keeps_server_state s p c hp
+
 end Pipeline
 
 end Beetswap.Props.C15
